@@ -416,11 +416,13 @@ fn execute(sc: &Scenario, osim: SimOs, rep: &mut RunReport) {
                 return;
             }
         } else {
-            // success although a fault was injected (e.g. after a retry): data must come from the OS
-            let last_ok = entries.iter().rev().find_map(|e| match &e.result {
-                CallResult::Ok(r) => Some(r.clone()),
+            // success although a fault was injected: legitimate only as a retry that succeeded - the
+            // LAST OS call of the invocation must have succeeded (a failed last step reported as
+            // success is a swallowed error) and returned data must be the data of that call
+            let last_ok = match entries.last().map(|e| &e.result) {
+                Some(CallResult::Ok(r)) => Some(r.clone()),
                 _ => None,
-            });
+            };
             let ok = match (call.func.as_str(), last_ok) {
                 ("fs.file_read_to_string" | "io.cgetline", Some(r)) => success_ok(&value, &r),
                 ("fs.file_read_to_string" | "io.cgetline", None) => false,
@@ -578,7 +580,7 @@ fn boundary_values(t: &Type, rng: &mut Rng, iters: &BTreeMap<String, Variable>) 
         Type::Int => Variable::Int(*rng.pick(&[0i64, 1, -1, 2, 63, 64, 255, 256, i64::MAX, i64::MIN, i64::MIN + 1, -255, 1 << 32, 10])),
         Type::Float => Variable::Float(*rng.pick(&[0.0f64, -0.0, 1.0, -1.5, f64::NAN, f64::INFINITY, f64::NEG_INFINITY, f64::MAX, f64::MIN_POSITIVE, 5e-324, 1e308, 9.2e18, -9.3e18, 0.5])),
         Type::Bool => Variable::Bool(rng.chance(1, 2)),
-        Type::String => Variable::from(*rng.pick(&["", " ", "abc", "  padded \t\n", "\u{df}\u{130}\u{1F600}", "12", "-7", "1e5", "a,b,,c", "\0", "NaN", "9223372036854775808"])),
+        Type::String => Variable::from(*rng.pick(&["", " ", "abc", "  padded \t\n", "\u{df}\u{130}\u{1F600}", "12", "-7", "1e5", "a,b,,c", "\0", "NaN", "9223372036854775808", "+5", " 5", "1_000", "0x10", "-0", "inf", ".5", "5.", "\u{a0}x\u{a0}", "aXbXc", "X"])),
         Type::Void => Variable::Void,
         Type::Any => Variable::Int(7),
         Type::Array(e) => match e.as_ref() {
@@ -860,7 +862,10 @@ pub fn gen(seed: u64, boot_seed: u64, run: u64, faulty: bool) -> Scenario {
         } else if k < 12 {
             calls.push(Call { func: "io.print".into(), args: vec![CONTENTS[rng.below(3)].to_string()], host });
         } else if k < 15 {
-            calls.push(Call { func: "io.print_array".into(), args: vec!["x".into(), CONTENTS[1].into(), ", ".into()], host });
+            let sep = ["", ", ", "\n", " \u{2713} ", "%s{}"][rng.below(5)].to_string();
+            let mut args: Vec<String> = (0..rng.below(4)).map(|i| CONTENTS[(i + rng.below(3)) % 4].to_string()).collect();
+            args.push(sep);
+            calls.push(Call { func: "io.print_array".into(), args, host });
         } else {
             let f = FS_FUNCS[rng.below(FS_FUNCS.len())];
             let args = if f.2 == 1 {
